@@ -64,6 +64,31 @@ theorem c01 (hf : HashFns) (k : Nat) (hcoh : hf.Coherent k)
     obtain ⟨h1, h2⟩ := List.mem_filter.1 hr
     exact c01_complete hf k hcoh retrieve ext L q hlen hret hwf hparse r h1 h2
 
+/-- Any insertion order (which drives the shortcut histogram and the bucket choice) gives the same
+    set of reported texts. -/
+theorem c01_insertion_order (hf : HashFns) (k : Nat) (hcoh : hf.Coherent k)
+    (retrieve : Idx → Option NetRule) (ext : Ext) (L L' : List (NetRule × Idx)) (q : Request)
+    (hperm : L.Perm L')
+    (hlen : L.length < maxInt32) (hret : RetrievalOK retrieve L)
+    (hwf : ∀ p ∈ L, DomainsWF p.1) (hparse : TextDeterminesRule L) (t : Bytes) :
+    t ∈ ((Engine.build hf k L).matchAll hf k retrieve ext q).map (·.text) ↔
+      t ∈ ((Engine.build hf k L').matchAll hf k retrieve ext q).map (·.text) := by
+  have hlen' : L'.length < maxInt32 := by rw [← hperm.length_eq]; exact hlen
+  have hret' : RetrievalOK retrieve L' := fun p hp => hret p (hperm.mem_iff.2 hp)
+  have hwf' : ∀ p ∈ L', DomainsWF p.1 := fun p hp => hwf p (hperm.mem_iff.2 hp)
+  have hparse' : TextDeterminesRule L' :=
+    fun p hp p' hp' => hparse p (hperm.mem_iff.2 hp) p' (hperm.mem_iff.2 hp')
+  rw [c01 hf k hcoh retrieve ext L q hlen hret hwf hparse t,
+      c01 hf k hcoh retrieve ext L' q hlen' hret' hwf' hparse' t]
+  simp only [specMatchAll, List.mem_map, List.mem_filter]
+  constructor
+  · rintro ⟨r, ⟨⟨p, hp, rfl⟩, hm⟩, rfl⟩; exact ⟨p.1, ⟨⟨p, hperm.mem_iff.1 hp, rfl⟩, hm⟩, rfl⟩
+  · rintro ⟨r, ⟨⟨p, hp, rfl⟩, hm⟩, rfl⟩; exact ⟨p.1, ⟨⟨p, hperm.mem_iff.2 hp, rfl⟩, hm⟩, rfl⟩
+
+/-- The slice expressions `s[i:i+k]` of the window loops (`0 ≤ i ≤ len-k`) never panic. -/
+theorem c01_window_no_panic (k : Nat) (s : Bytes) (i : Nat) (hi : i < s.length + 1 - k) :
+    Bytes.slice? s i (i + k) = some ((s.drop i).take k) := window_slice k s i hi
+
 /-- `FastHashBetween(s, i, i+k)` is `FastHash(s[i:i+k])` for every window length `k ≥ 1`
     (for `k = 0` it is not: `FastHash "" = 0`). -/
 theorem c01_hash_coherent (k : Nat) (hk : 1 ≤ k) : djb2.Coherent k := djb2_coherent k hk
@@ -86,6 +111,24 @@ theorem c01_djb2 (retrieve : Idx → Option NetRule) (ext : Ext) (L : List (NetR
     worst case of collisions. -/
 theorem c01_constant_hash_coherent (k : Nat) : (⟨fun _ => 7, fun _ _ _ => 7⟩ : HashFns).Coherent k :=
   fun _ _ _ => rfl
+
+/-- The model distinguishes the repaired code from the pinned tree (defect D1): with the OLD domains
+    table the rule `/ad$domain=example.*` is filed under the hash of the literal `example.*`, so a
+    request from `example.com` — which the rule matches — reports nothing. -/
+example :
+    let ext : Ext := ⟨fun _ => (lit "com", true), fun _ => none, fun _ => none, fun _ _ _ => true⟩
+    let r : NetRule := { text := lit "/ad$domain=example.*", pattern := lit "/ad", shortcut := lit "/ad",
+                         permDomains := [lit "example.*"] }
+    let q : Request := { url := lit "http://x.com/ad", urlLower := lit "http://x.com/ad", hostname := lit "x.com",
+                         sourceURL := lit "http://example.com/", sourceHostname := lit "example.com", reqType := 4,
+                         thirdParty := true }
+    let retrieve : Idx → Option NetRule := fun _ => some r
+    r.matches ext q = true ∧
+    ((DomainsTable.tryAddOld djb2 {} r 0).map fun t =>
+        t.matchAllG djb2 retrieve (fun r => r.matches ext q) q.sourceHostname) = some [] ∧
+    ((Engine.build djb2 Facts.shortcutLength [(r, 0)]).matchAll djb2 Facts.shortcutLength retrieve ext q).map (·.text)
+      = [lit "/ad$domain=example.*"] := by
+  decide
 
 /-! Non-vacuity: the hypotheses are satisfiable by a non-trivial instance (a shortcut-table rule, a
     domains-table rule and a duplicated sequential rule in two lists). -/
